@@ -151,6 +151,7 @@ func rollbackScenario(c *core.Ctx) {
 			acked = seq
 			if k < len(wl.SleepMS) && wl.SleepMS[k] > 0 {
 				time.Sleep(time.Duration(wl.SleepMS[k]) * time.Millisecond)
+				s.Yield("writer-woke")
 				if cfg.Index.SamplingMS > 0 && wl.SleepMS[k] > cfg.Index.SamplingMS {
 					c.Probe("time_jump_over_sampling_interval")
 				}
